@@ -290,6 +290,39 @@ func Run(c *engine.Ctx) {
 			} else {
 				devs = gen.Deviations(k.Bases()[bn], 3)
 			}
+			// the copy of every deviated value equals that value (repeated, reordered, emptied, range-corner content)
+			for di := range devs {
+				di := di
+				c.Case(func() any {
+					return map[string]any{"type": k.Name, "value": bn, "deviation": devs[di].Label, "clause": "copy of the deviated value equals it"}
+				}, func(t *engine.T) *engine.Violation {
+					src := k.Bases()[bn]
+					if !safeMutate(devs[di], src) {
+						t.Outcome("path-not-applicable")
+						return nil
+					}
+					if n, ok := src.(*sbom.Node); ok {
+						for _, ts := range []*timestamppb.Timestamp{n.ReleaseDate, n.BuildDate, n.ValidUntilDate} {
+							if ts != nil && ts.CheckValid() != nil {
+								t.Outcome("deviation-leaves-the-valid-timestamp-range")
+								return nil // nanos beyond 999999999 or seconds beyond year 9999: not a value of the type
+							}
+						}
+					}
+					cp := k.Copy(src)
+					t.Transitions(1)
+					t.Validated(1)
+					if gen.Canon(cp, ordered) != gen.Canon(src, ordered) {
+						return engine.Violate("copy-equal", k.Name, "after %s: the copy differs in content from its source:\nsource %s\ncopy   %s", devs[di].Label, gen.Canon(src, ordered), gen.Canon(cp, ordered))
+					}
+					if eq, has := k.Equal(src, cp); has && !eq {
+						return engine.Violate("copy-equal", k.Name, "after %s: the copy does not compare equal to its source", devs[di].Label)
+					}
+					t.State(fmt.Sprintf("copyeq-dev:%s:%s:%s", k.Name, bn, devs[di].Label))
+					t.Outcome("copy-equal-ok")
+					return nil
+				})
+			}
 			for di := range devs {
 				for side := 0; side < 2; side++ {
 					di, side := di, side
